@@ -80,6 +80,8 @@ def families(tier):
                 if q and n == 2 and comp != "fragment":
                     continue
                 fams.append(Family("%s/%s/n=%d" % (host, comp, n), h_roundtrip, dict(host=host, free={comp: n})))
+    for comp in ("qkey", "qval", "fragment", "path", "password", "user"):
+        fams.append(Family("reg/%s/n=0" % comp, h_roundtrip, dict(host="reg", free={comp: 0})))
     pairs = [("user", "password"), ("path", "fragment"), ("qkey", "qval"), ("path", "qkey"), ("password", "path")]
     for a, b in (pairs[1:2] if q else pairs):
         fams.append(Family("reg/%s+%s" % (a, b), h_roundtrip, dict(host="reg", free={a: 1, b: 1})))
